@@ -191,8 +191,18 @@ def run(ctx):
         ctx.check('BLANK', 'removed leaf: direct path blanked with the leaf',
                   lambda P_: branch_must_pass(P_, R, r'Result::is_ok\(NodeVec::blank_leaf_node\(', True, r'NodeVec::blank_direct_path$'), floor=1)
         ctx.check('WHO-CALLS', 'leaf blanking sites', lambda P_: who_calls(P_, r'NodeVec::blank_leaf_node$', [r'^TreeKemPublic::(apply_remove|batch_edit)$']), floor=2)
-        ctx.check('MUST-PASS', 'updated leaves: direct paths blanked',
-                  lambda P_: must_pass(P_, 'TreeKemPublic::batch_edit', r'try_for_each$'), floor=1)
+        def updated_paths_blanked(P_):
+            fn = P_.fn('TreeKemPublic::batch_edit')
+            r = Res()
+            for k in [fn['key']] + P_.closures_of(fn['key']):
+                b2 = P_.body(P_.fns[k])
+                for bi, t in b2.calls_named(r'NodeVec::blank_direct_path$'):
+                    r.site('%s @%s' % (P_.fns[k]['qual'], b2.ln(bi)))
+            if not r.sites:
+                r.bad('call-missing', 'batch_edit no longer blanks the direct path of the leaves it updated: the keys above an updated leaf '
+                      'stay in the resolutions the next path secret is encrypted to')
+            return r
+        ctx.check('BLANK', 'updated leaves: direct paths blanked', updated_paths_blanked, floor=1)
     P0 = 'MessageProcessor::process_commit'
 
     def removed_stays_behind(P_):
